@@ -92,8 +92,8 @@ func registerHandlebarsHelpers() {
 				// Currently, only 'string' parameters don't undergo any validation
 				return options.Fn()
 			}
-			if (strings.HasPrefix(param.TypeMeta.Name, "[]") || strings.HasPrefix(param.TypeMeta.Name, "*[]")) && param.PassedIn == definitions.PassedInBody {
-				// Body of array needs conversion
+			if param.PassedIn == definitions.PassedInBody {
+				// A body is always bound and validated through 'conversionErr', whatever its type (struct, array, enum or alias)
 				return options.Fn()
 			}
 		}
